@@ -3,7 +3,11 @@
 Tie: correspondence (C).  Real `BIOGEME` objects with `save_iterations` on receive generated
 histories of `calculate_likelihood_and_derivatives`; the file `__<model>.iter` is read after
 every call and compared with the Lean model (`IterFile.trace`) and with the property oracle
-(best finite point so far, complete lines, bit-for-bit values).  The write protocol is recorded
+(best finite point so far, complete lines, bit-for-bit values).  Sessions: ONE object receives generated sequences
+of public calls (direct evaluations with every combination of scaled/hessian/bhhh, check_derivatives, the
+finite-difference hessian, estimate, quick_estimate) interleaved with assignments of modelName; every derivative
+evaluation is recorded (wrapped public method) with all iteration files after it, and compared with the session model
+(`IterFile.strace`) and with the session oracle (`oracle_session`).  The write protocol is recorded
 from the real code (harness-side wrapping of `open`/`write`/`os.replace`), checked to be the
 protocol of theorem `C15.crash_safe`, and every crash point is injected for real.
 """
@@ -28,7 +32,9 @@ MANIFEST = dict(
     '(invariant by induction, C15.file_is_best / every_prefix_is_best / never_below_start); re-reading a rendered line returns name and value '
     '(C15.parse_render, names may contain "="); restart overrides exactly the saved names; the write protocol tmp-then-rename is safe at every crash point '
     '(C15.crash_safe, all k, all chunk lists). Tie: correspondence on real BIOGEME objects (file read after every call, real restart, recorded write protocol '
-    'compared with the model protocol, every crash point injected for real).',
+    'compared with the model protocol, every crash point injected for real). Sessions on one object (every entry point that evaluates derivatives, '
+    'scaled and unscaled calls mixed, model renamed before/after first use): the best point is in the file of the name the object had when it was evaluated, '
+    'the scaled flag is irrelevant, an evaluation touches only the file of the current name (C15.session_*), compared with the real files after every recorded evaluation.',
     design='DESIGN.md §5 C15',
     technique='Lean 4 theorems over an executable state-machine model + differential correspondence with real BIOGEME runs and crash injection',
     note='Partial: CPython float repr/parse round trip and OS rename atomicity are trusted; f and the finite-gradient flag come from the engine.',
@@ -39,10 +45,16 @@ TRUSTED = [
     'the engine computes f and the gradient; the model receives the real f and the finite-gradient flag',
     'OS: rename is atomic; a stopped process leaves a prefix of the issued write operations',
 ]
-ASSUMPTIONS = ['likelihood values compared by >= are not NaN (GeOK hypothesis of the theorems)']
+ASSUMPTIONS = [
+    'likelihood values compared by >= are not NaN (GeOK hypothesis of the theorems)',
+    'sessions: the sample size is 4, so the value returned by a scaled call times N is exactly the log likelihood on the data '
+    '(checked against calculate_likelihood on every recorded point)',
+]
 RULE = (
     'histories of 1-8 evaluations (improving, worsening, tied, non-finite) on 1-3 parameter concave '
-    'likelihoods with adversarial names; non-trivial = history with >= 1 worsening or non-finite step after a finite one'
+    'likelihoods with adversarial names; non-trivial = history with >= 1 worsening or non-finite step after a finite one; '
+    'sessions of 3-9 public operations on one object (eval with random scaled/hessian/bhhh flags, check_derivatives, finite-difference hessian, '
+    'estimate, quick_estimate, modelName assignments): non-trivial = >= 2 recorded evaluations and (finite evaluations with both scaled flags, or a rename after the first evaluation)'
 )
 
 TOML = '[Estimation]\nsave_iterations = "True"\n'
@@ -50,14 +62,16 @@ TOML = '[Estimation]\nsave_iterations = "True"\n'
 NAME_POOL = ['b10', 'b2', 'alpha', 'zeta', 'B_TIME', 'asc=1', 'β_coût', 'x y', 'a=b=c', 'Z', 'a']
 
 
-def build(names, tag):
-    """a concave likelihood in the given free parameters; parameter k is non-finite beyond ~1.01"""
+def build(names, tag, rows=3):
+    """a concave likelihood in the given free parameters; parameter k is non-finite beyond ~1.01.
+    `tag` None: the model is not named (default model name).  `rows` = 4: a sample size that is a power of
+    two, so that the value returned by a scaled call times N is exactly the log likelihood on the data."""
     import pandas as pd
     import biogeme.biogeme as bio
     import biogeme.database as db
     from biogeme.expressions import Beta, Variable, exp
 
-    df = pd.DataFrame({'X': [0.25, 0.5, -0.25], 'Y': [700.0, 700.0, 700.0]})
+    df = pd.DataFrame({'X': [0.25, 0.5, -0.25, 0.375][:rows], 'Y': [700.0] * rows})
     d = db.Database('t', df)
     X = Variable('X')
     Y = Variable('Y')
@@ -76,7 +90,8 @@ def build(names, tag):
     bl = Beta(sorted(names)[-1], 0.3 + 0.1 * names.index(sorted(names)[-1]), None, None, 0)
     ll = ll + ((bl + 1.0) ** 0.5) * 0.001
     B = bio.BIOGEME(d, ll)
-    B.modelName = tag
+    if tag is not None:
+        B.modelName = tag
     return B
 
 
@@ -93,21 +108,9 @@ def oracle_file(sorted_names, text, evals):
         return None if not finite else 'no file although a finite point was evaluated'
     if not finite:
         return 'file exists although no finite point was evaluated'
-    lines = text.split('\n')
-    if lines[-1] != '':
-        return 'last line incomplete'
-    lines = lines[:-1]
-    if len(lines) != len(sorted_names):
-        return f'{len(lines)} lines for {len(sorted_names)} free parameters'
-    vals = []
-    for n, l in zip(sorted_names, lines):
-        pre = f'{n} = '
-        if not l.startswith(pre):
-            return f'line {l!r} does not start with {pre!r}'
-        try:
-            vals.append(float(l[len(pre):]))
-        except ValueError:
-            return f'value of line {l!r} is not a float'
+    vals, why = parse_iter(sorted_names, text)
+    if why:
+        return why
     best = max(e['f'] for e in finite)
     for e in finite:
         if e['f'] == best and [f2b(v) for v in e['x']] == [f2b(v) for v in vals]:
@@ -196,6 +199,373 @@ def tokens_of_file(text, sorted_names):
     if len(lines) != len(sorted_names):
         return ['<malformed>']
     return toks
+
+
+# ----- sessions: several public entry points, option combinations and renames on ONE object --------------
+
+MODEL_NAMES = ['pilot', 'final', 'm', 'M', 'm2', 'run 1', 'modèle', 'a.iter', 'b=1', 'x.tmp', '__m']
+
+
+def parse_iter(sorted_names, text):
+    """complete `name = value` lines, one per free parameter: (values, None) or (None, why)"""
+    lines = text.split('\n')
+    if lines[-1] != '':
+        return None, 'last line incomplete'
+    lines = lines[:-1]
+    if len(lines) != len(sorted_names):
+        return None, f'{len(lines)} lines for {len(sorted_names)} free parameters'
+    vals = []
+    for n, l in zip(sorted_names, lines):
+        pre = f'{n} = '
+        if not l.startswith(pre):
+            return None, f'line {l!r} does not start with {pre!r}'
+        try:
+            vals.append(float(l[len(pre):]))
+        except ValueError:
+            return None, f'value of line {l!r} is not a float'
+    return vals, None
+
+
+def iter_files():
+    """model name -> text of __<name>.iter, for every iteration file of the working directory"""
+    return {p[2:-5]: read_file(p) for p in sorted(os.listdir('.')) if p.startswith('__') and p.endswith('.iter')}
+
+
+def gen_point(rng, k, pts, kinds=('rand', 'rand', 'rand', 'repeat', 'nonfinite', 'better', 'better')):
+    kind = rng.choice(kinds)
+    if kind == 'repeat' and pts:
+        return list(rng.choice(pts))
+    if kind == 'nonfinite':
+        x = [rng.uniform(-1, 0.9) for _ in range(k)]
+        if rng.random() < 0.5:
+            x[0] = rng.choice([2.0, 5.0, 1.5])           # overflow: f = -inf
+        else:
+            x = [0.16 * (j + 1) for j in range(k)]
+            x[-1] = -1.0                                   # f finite and high, gradient infinite
+        return x
+    if kind == 'better':
+        x = [0.16 * (j + 1) + rng.uniform(-0.05, 0.05) for j in range(k)]
+        x[-1] = -0.88 + rng.uniform(-0.05, 0.05)
+        return x
+    return [rng.choice([rng.uniform(-1, 0.9), rng.randint(-8, 7) / 8.0]) for _ in range(k)]
+
+
+def gen_session(rng, k):
+    """operations on one BIOGEME object: direct evaluations with every combination of scaled/hessian/bhhh (array
+    or list argument), check_derivatives, finite-difference hessian, estimate, quick_estimate, and assignments of
+    modelName at any moment (before the first use, after it, back to an earlier name)"""
+    name0 = None if rng.random() < 0.45 else rng.choice(MODEL_NAMES)
+    shape = rng.choice(['free', 'free', 'late_name', 'mixed_scale'])
+    n = rng.randint(3, 9)
+    ops, pts = [], []
+    first_scaled = rng.random() < 0.5
+    n_est = 0
+    for i in range(n):
+        r = rng.random()
+        if shape == 'late_name' and i == 0:
+            r = rng.choice([0.0, 0.0, 0.75])
+        if shape == 'late_name' and i == 1:
+            r = 0.6
+        if shape == 'mixed_scale':
+            r = r * 0.62                                     # evaluations and renames only
+        if r < 0.55:
+            x = gen_point(rng, k, pts)
+            pts.append(x)
+            scaled = rng.random() < 0.5
+            if shape == 'mixed_scale':
+                scaled = first_scaled if len(pts) % 2 else not first_scaled
+            ops.append({'k': 'eval', 'x': x, 'scaled': scaled, 'hessian': rng.random() < 0.3, 'bhhh': rng.random() < 0.2,
+                        'aslist': rng.random() < 0.3})
+        elif r < 0.72:
+            ops.append({'k': 'rename', 'name': rng.choice(MODEL_NAMES)})
+        elif r < 0.81:
+            x = gen_point(rng, k, pts, kinds=('rand', 'better', 'nonfinite'))
+            ops.append({'k': 'check', 'x': x})
+        elif r < 0.88:
+            x = gen_point(rng, k, pts, kinds=('rand', 'better'))
+            ops.append({'k': 'fdh', 'x': x})
+        elif n_est < 1:
+            n_est += 1
+            ops.append({'k': rng.choice(['estimate', 'estimate', 'quick_estimate'])})
+        else:
+            ops.append({'k': 'rename', 'name': rng.choice(MODEL_NAMES)})
+    return name0, ops
+
+
+def run_session(names, name0, ops, rows=4):
+    """real code: every derivative evaluation of the object is recorded by wrapping the public method (point, flags,
+    model name at the call, log likelihood on the data, finite gradient, all iteration files after the call)"""
+    import biogeme.biogeme as bio
+
+    events, errors = [], []
+    with core.scratch(TOML):
+        B = build(names, name0, rows=rows)
+        B.generate_html = False
+        B.generate_pickle = False
+        sorted_names = list(B.free_beta_names)
+        start_name = B.modelName
+        n_obs = float(B.database.get_sample_size())
+        cur = {'op': None, 'first': None}
+        orig = bio.BIOGEME.calculate_likelihood_and_derivatives
+        orig_l = bio.BIOGEME.calculate_likelihood
+
+        def spy(self, x, scaled, hessian=False, bhhh=False, batch=None):
+            if self is not B:
+                return orig(self, x, scaled, hessian, bhhh, batch)
+            name = self.modelName
+            xs = [float(v) for v in x]
+            if cur['first'] is None:
+                cur['first'] = xs
+            r = orig(self, x, scaled, hessian, bhhh, batch)
+            f = float(r.function) * (n_obs if scaled else 1.0)
+            g = np.linalg.norm(r.gradient)
+            events.append({'k': 'eval', 'op': cur['op'], 'name': name, 'x': xs, 'scaled': bool(scaled), 'hessian': bool(hessian),
+                           'bhhh': bool(bhhh), 'f': f, 'finite': bool(np.isfinite(g)), 'files': iter_files()})
+            return r
+
+        def spy_l(self, x, *a, **kw):
+            if self is B and cur['first'] is None:
+                cur['first'] = [float(v) for v in x]
+            return orig_l(self, x, *a, **kw)
+
+        bio.BIOGEME.calculate_likelihood_and_derivatives = spy
+        bio.BIOGEME.calculate_likelihood = spy_l
+        try:
+            for i, op in enumerate(ops):
+                cur['op'], cur['first'] = i, None
+                k = op['k']
+                ev = None
+                try:
+                    if k == 'eval':
+                        x = list(op['x']) if op.get('aslist') else np.array(op['x'], dtype=float)
+                        B.calculate_likelihood_and_derivatives(x, scaled=op['scaled'], hessian=op['hessian'], bhhh=op['bhhh'])
+                    elif k == 'check':
+                        B.check_derivatives(np.array(op['x'], dtype=float))
+                    elif k == 'fdh':
+                        B.likelihood_finite_difference_hessian(np.array(op['x'], dtype=float))
+                    elif k == 'rename':
+                        B.modelName = op['name']
+                        events.append({'k': 'rename', 'op': i, 'name': op['name'], 'files': iter_files()})
+                    elif k == 'estimate':
+                        files = iter_files()
+                        ev = {'k': 'reset', 'op': i, 'name': B.modelName, 'file_before': files.get(B.modelName), 'files': files, 'first': None}
+                        events.append(ev)
+                        B.estimate()
+                    elif k == 'quick_estimate':
+                        B.quick_estimate()
+                    else:
+                        raise ValueError(k)
+                except Exception as e:  # noqa: BLE001
+                    errors.append(f'op {i} ({k}): {type(e).__name__}: {e}')
+                finally:
+                    if ev is not None:
+                        ev['first'] = cur['first']
+        finally:
+            bio.BIOGEME.calculate_likelihood_and_derivatives = orig
+            bio.BIOGEME.calculate_likelihood = orig_l
+        # reference values of the log likelihood on the data (no derivatives, nothing is saved), for the sanity
+        # check of the recorded values
+        ref = []
+        for ev in events:
+            if ev['k'] == 'eval':
+                try:
+                    ref.append(float(B.calculate_likelihood(np.array(ev['x'], dtype=float), scaled=False)))
+                except Exception:  # noqa: BLE001
+                    ref.append(None)
+        others = sorted(p for p in os.listdir('.') if p != 'biogeme.toml' and not (p.startswith('__') and p.endswith('.iter')))
+    return {'sorted_names': sorted_names, 'start_name': start_name, 'events': events, 'errors': errors, 'ref': ref, 'others': others}
+
+
+def oracle_session(sorted_names, events):
+    """property oracle on a session, written from the statement (independent of the Lean model).  After EVERY derivative
+    evaluation of the object, whatever the entry point and the flags of the call:
+      (a) every iteration file is complete and holds bit-for-bit a point evaluated with finite derivatives while the
+          model had the name of that file;
+      (b1) a point strictly better (log likelihood on the data) than every finite point evaluated since the start of
+          the estimation is in the file of the CURRENT model name;
+      (b2) a file is only ever replaced by a point at least as good as every finite point evaluated so far, and only
+          the file of the current model name is touched;
+      (c) estimate() starts from the values of the file of the current model name.
+    Returns None or (what, index of the event, observed, expected)."""
+    bits = lambda xs: [f2b(v) for v in xs]  # noqa: E731
+    seg = []            # f of the finite points evaluated since the start of the estimation
+    by_name = {}        # model name -> {bits of a finite point evaluated under that name: its best f}
+    prev = {}
+    for idx, ev in enumerate(events):
+        if ev['k'] == 'reset':
+            seg = []
+            fb = ev.get('file_before')
+            if fb is not None and ev.get('first') is not None:
+                vals, why = parse_iter(sorted_names, fb)
+                if why is None and bits(vals) != bits(ev['first']):
+                    return ('estimate() does not start from the values saved in the file of the current model name '
+                            f'{ev["name"]!r}', idx, ev['first'], vals)
+            continue
+        files = ev['files']
+        if ev['k'] == 'rename':
+            if files != prev:
+                return (f'assigning modelName = {ev["name"]!r} changed the iteration files', idx, files, prev)
+            continue
+        name, xb, f = ev['name'], tuple(bits(ev['x'])), ev['f']
+        finite = ev['finite']
+        if finite and math.isnan(f):
+            return None          # assumption of the property check (no NaN likelihood at a finite gradient) not met
+        prior = max(seg) if seg else None
+        if finite:
+            d = by_name.setdefault(name, {})
+            d[xb] = max(f, d.get(xb, -math.inf))
+        content = {}
+        for m, text in sorted(files.items()):
+            vals, why = parse_iter(sorted_names, text)
+            if why:
+                return (f'iteration file of model {m!r}: {why}', idx, text, 'complete name = value lines')
+            vb = tuple(bits(vals))
+            content[m] = vb
+            if vb not in by_name.get(m, {}):
+                elsewhere = sorted(o for o, dd in by_name.items() if vb in dd)
+                return (f'iteration file of model {m!r} holds a point that was not evaluated with finite derivatives under '
+                        f'that model name' + (f' (it was evaluated under {elsewhere})' if elsewhere else ''), idx, text,
+                        'an evaluated point of that model')
+        for m in sorted(set(files) | set(prev)):
+            if files.get(m) == prev.get(m):
+                continue
+            if m not in files:
+                return (f'iteration file of model {m!r} disappeared', idx, None, prev.get(m))
+            if m != name:
+                return (f'an evaluation under the model name {name!r} rewrote the iteration file of model {m!r}', idx,
+                        files[m], prev.get(m))
+            fc = by_name[m][content[m]]
+            if prior is not None and fc < prior:
+                return (f'iteration file of model {m!r} replaced by a point with log likelihood {fc}, worse than the best '
+                        f'finite point evaluated so far ({prior})', idx, files[m], 'the best point evaluated so far')
+        if finite and (prior is None or f > prior):
+            if name not in files:
+                return (f'a new best point (log likelihood {f}, previous best {prior}) was evaluated under the model name '
+                        f'{name!r} but __{name}.iter does not exist', idx, sorted(files), f'__{name}.iter holding the point')
+            if content[name] != xb:
+                return (f'a new best point (log likelihood {f}, previous best {prior}) was evaluated under the model name '
+                        f'{name!r} but __{name}.iter does not hold it', idx, files[name], ev['x'])
+        if finite:
+            seg.append(f)
+        prev = files
+    return None
+
+
+def session_case(names, name0, ops):
+    return {'session': True, 'names': names, 'name0': name0, 'ops': ops}
+
+
+def session_view(events, upto):
+    """compact description of the recorded evaluations for a report"""
+    return [
+        {q: ev[q] for q in ('k', 'op', 'name', 'x', 'scaled', 'hessian', 'f', 'finite') if q in ev}
+        for ev in events[: upto + 1]
+    ][-12:]
+
+
+def apply_session_oracle(res, case, out):
+    """sanity of the recorded values, then the property oracle; True when a violation was reported"""
+    evals = [ev for ev in out['events'] if ev['k'] == 'eval']
+    for ev, rf in zip(evals, out['ref']):
+        if rf is None or math.isnan(rf) or math.isnan(ev['f']):
+            continue
+        if not (ev['f'] == rf or core.close(ev['f'], rf, 1e-9, 1e-12)):
+            res.diverge('value returned by an evaluation (times N when scaled) is not the log likelihood on the data; '
+                        'session oracle not applied', case, rf, {q: ev[q] for q in ('x', 'scaled', 'f')})
+            return False
+    bad = oracle_session(out['sorted_names'], out['events'])
+    if bad:
+        what, idx, observed, expected = bad
+        res.violate(what, {**case, 'event': idx, 'recorded': session_view(out['events'], idx)}, observed, expected,
+                    where='iteration file over a session on one object (entry points, scaled flags, modelName)')
+        return True
+    return False
+
+
+def check_session(ctx, res, names, name0, ops):
+    out = run_session(names, name0, ops)
+    case = session_case(names, name0, ops)
+    events = out['events']
+    evals = [ev for ev in events if ev['k'] == 'eval']
+    mixed = len({ev['scaled'] for ev in evals if ev['finite']}) > 1
+    renamed_after_use = any(e1['k'] == 'eval' and e2['k'] == 'rename' and e2['name'] != e1['name']
+                            for i, e1 in enumerate(events) for e2 in events[i + 1:])
+    res.count(case, nontrivial=len(evals) >= 2 and (mixed or renamed_after_use))
+    res.tally('session')
+    for ev in evals:
+        res.tally('session eval scaled' if ev['scaled'] else 'session eval unscaled')
+    for o in ops:
+        res.tally('session op ' + o['k'])
+    if mixed:
+        res.tally('session with scaled and unscaled finite evaluations')
+    if renamed_after_use:
+        res.tally('session renamed after first use')
+    for e in out['errors']:
+        # an operation that raised (e.g. a list argument at a point with non-finite gradient: the warning text needs an
+        # array) saved nothing; the files observed by the later operations are still checked
+        res.tally('session op raised ' + e.split(': ')[1])
+    if out['others'] and any(not o.endswith('.tmp') for o in out['others']):
+        res.diverge('unexpected files next to the iteration files', case, [], out['others'])
+    apply_session_oracle(res, case, out)
+    # the Lean model on the same session (deferred)
+    sn = out['sorted_names']
+    ops_m = []
+    for ev in events:
+        if ev['k'] == 'eval':
+            ops_m.append({'k': 'eval', 'x': [str(np.float64(v)) for v in ev['x']], 'f': f2b(ev['f']), 'finite': ev['finite'], 'scaled': ev['scaled']})
+        elif ev['k'] == 'rename':
+            ops_m.append({'k': 'rename', 'name': ev['name']})
+        else:
+            ops_m.append({'k': 'reset'})
+    if not ops_m:
+        return out
+    observed = [[[m, tokens_of_file(t, sn)] for m, t in sorted(ev['files'].items())] for ev in events]
+
+    def cb(ans):
+        model = ans[0].get('files')
+        if model is None or len(model) != len(observed):
+            res.diverge('IterFile.strace on a session', case, ans[0], len(observed))
+            return
+        for i, (mo, ob) in enumerate(zip(model, observed)):
+            if mo != ob:
+                res.diverge(f'iteration files after recorded event {i} of a session ({events[i]["k"]})',
+                            {**case, 'recorded': session_view(events, i)}, mo, ob)
+                break
+
+    ctx.batch.add_many([{'op': 'session', 'name': out['start_name'], 'ops': ops_m}], cb)
+    return out
+
+
+SESSION_CORPUS = [
+    # the model is named after its first use: the better point belongs in the file of the new name
+    {'names': ['b'], 'name0': None, 'ops': [
+        {'k': 'eval', 'x': [0.5], 'scaled': False, 'hessian': False, 'bhhh': False},
+        {'k': 'rename', 'name': 'final'},
+        {'k': 'eval', 'x': [-0.5], 'scaled': False, 'hessian': False, 'bhhh': False},
+        {'k': 'eval', 'x': [-0.8], 'scaled': False, 'hessian': True, 'bhhh': False}]},
+    # derivatives checked before the model is named, then estimated under its name
+    {'names': ['zeta', 'alpha'], 'name0': None, 'ops': [
+        {'k': 'check', 'x': [0.5, 0.5]}, {'k': 'rename', 'name': 'run 1'}, {'k': 'estimate'}]},
+    # scaled and unscaled calls mixed: the marker is on the scale of the data log likelihood
+    {'names': ['b'], 'name0': 'm', 'ops': [
+        {'k': 'eval', 'x': [0.75], 'scaled': True, 'hessian': False, 'bhhh': False},
+        {'k': 'eval', 'x': [-0.8], 'scaled': False, 'hessian': False, 'bhhh': False},
+        {'k': 'eval', 'x': [-0.25], 'scaled': True, 'hessian': False, 'bhhh': False}]},
+    {'names': ['b10', 'b2'], 'name0': 'm', 'ops': [
+        {'k': 'eval', 'x': [0.1, -0.8], 'scaled': False, 'hessian': False, 'bhhh': True},
+        {'k': 'eval', 'x': [0.5, 0.5], 'scaled': True, 'hessian': True, 'bhhh': False, 'aslist': True},
+        {'k': 'fdh', 'x': [0.4, 0.4]},
+        {'k': 'eval', 'x': [0.2, -0.5], 'scaled': True, 'hessian': False, 'bhhh': False}]},
+    # back to an earlier name
+    {'names': ['a'], 'name0': 'pilot', 'ops': [
+        {'k': 'eval', 'x': [0.75], 'scaled': False, 'hessian': False, 'bhhh': False},
+        {'k': 'rename', 'name': 'final'},
+        {'k': 'eval', 'x': [-0.5], 'scaled': True, 'hessian': False, 'bhhh': False},
+        {'k': 'rename', 'name': 'pilot'},
+        {'k': 'eval', 'x': [0.25], 'scaled': False, 'hessian': False, 'bhhh': False},
+        {'k': 'eval', 'x': [-0.85], 'scaled': False, 'hessian': False, 'bhhh': False},
+        {'k': 'quick_estimate'}]},
+]
 
 
 # ----- crash injection -------------------------------------------------------------------------
@@ -443,6 +813,17 @@ def check(ctx) -> Result:
         res.tally(f'len={len(pts)}')
         if len(res.violations) > 3:
             break
+    # sessions on one object: entry points x option combinations x renames
+    for c in SESSION_CORPUS:
+        check_session(ctx, res, c['names'], c['name0'], c['ops'])
+        res.tally('corpus')
+    for _ in range(ctx.n(110, 3000)):
+        if len(res.violations) > 3:
+            break
+        k = rng.randint(1, 3)
+        names = rng.sample(NAME_POOL, k)
+        name0, ops = gen_session(rng, k)
+        check_session(ctx, res, names, name0, ops)
     # crash points
     n_crash = ctx.n(2, 12)
     for i in range(n_crash):
@@ -505,6 +886,14 @@ def search(ctx, res, broken):
     """something broke without a concrete failing input: widen the generated stream and apply the
     property oracle on the real code"""
     rng = core.rng_for('C15-search', ctx.seed)
+    for i in range(150):
+        k = rng.randint(1, 3)
+        names = rng.sample(NAME_POOL, k)
+        name0, ops = gen_session(rng, k)
+        r2 = Result()
+        if apply_session_oracle(r2, session_case(names, name0, ops), run_session(names, name0, ops)):
+            res.violations.extend(r2.violations[:1])
+            return
     for i in range(300):
         k = rng.randint(1, 3)
         names = rng.sample(NAME_POOL, k)
@@ -531,7 +920,13 @@ def search(ctx, res, broken):
 def replay(ctx, obj):
     case = obj.get('case', {})
     out = {'replayed': obj.get('what')}
-    if 'points' in case:
+    if case.get('session'):
+        r = Result()
+        o = run_session(case['names'], case['name0'], case['ops'])
+        fails = apply_session_oracle(r, session_case(case['names'], case['name0'], case['ops']), o)
+        out.update({'property_fails': bool(fails), 'why': r.violations[0]['what'] if r.violations else None,
+                    'recorded': session_view(o['events'], len(o['events']))})
+    elif 'points' in case:
         sorted_names, steps, restart, _ = run_history(case['names'], case['points'], 'replay')
         fails = None
         for j, s in enumerate(steps):
